@@ -112,6 +112,28 @@ fn pop_kvs<P: HProblem>(pop: &[Individual<P>]) -> Vec<KV> {
     pop.iter().map(kv::<P>).collect()
 }
 
+/// Purely relative comparison for sums of non-negative terms (no cancellation, so the computed
+/// value is within a few ulps of the exact one at any magnitude; sub-normal results excepted).
+fn rel_close_nonneg(a: f64, b: f64, tol: f64) -> bool {
+    if a == b {
+        return true;
+    }
+    if !a.is_finite() || !b.is_finite() {
+        return false;
+    }
+    (a - b).abs() <= tol * a.abs().max(b.abs()) + 1e-300
+}
+
+/// Bit pattern with the two zeros identified: -0.0 and 0.0 are the same objective value, and
+/// which of them a memory holds after a tie is not determined by the properties.
+pub fn zbits(v: f64) -> u64 {
+    if v == 0.0 {
+        0
+    } else {
+        v.to_bits()
+    }
+}
+
 fn rel_close(a: f64, b: f64, tol: f64) -> bool {
     if a == b {
         return true;
@@ -497,7 +519,7 @@ impl<P: HProblem> Obs<P> {
                 let mut exp = sorted_vals(&shown);
                 exp.truncate(k);
                 let got = sorted_vals(&after);
-                if exp.iter().map(|x| x.to_bits()).collect::<Vec<_>>() != got.iter().map(|x| x.to_bits()).collect::<Vec<_>>() {
+                if exp.iter().map(|x| zbits(*x)).collect::<Vec<_>>() != got.iter().map(|x| zbits(*x)).collect::<Vec<_>>() {
                     d.violate("C07", "archive-not-k-best", format!("({tname}) archive of capacity {k} holds {got:?}; the {k} best shown so far are {exp:?}"));
                 }
                 if after.iter().any(|a| !shown.contains(a)) {
@@ -593,7 +615,7 @@ impl<P: HProblem> Obs<P> {
                     if &after[i] != exp {
                         d.violate("C18", "pso-personal-best-wrong", format!("particle {i}: personal best was {b}, evaluated at {c}, now {a}"));
                     }
-                    if self.pso_hist_min.len() == after.len() && a.to_bits() != self.pso_hist_min[i].to_bits() {
+                    if self.pso_hist_min.len() == after.len() && zbits(a) != zbits(self.pso_hist_min[i]) {
                         d.violate("C18", "pso-personal-best-not-history-best", format!("particle {i}: personal best {a}, best value it was ever evaluated at {}", self.pso_hist_min[i]));
                     }
                     if c == b {
@@ -658,7 +680,7 @@ impl<P: HProblem> Obs<P> {
                             d.violate("C19", "pheromone-not-symmetric", format!("{kind}: trail ({a}, {b}) = {x} but ({b}, {a}) = {}", after[b * n + a]));
                             return;
                         }
-                        if !rel_close(x, exp[a * n + b], 1e-9) {
+                        if !rel_close_nonneg(x, exp[a * n + b], 1e-9) {
                             // out-of-bounds trails of the max-min variant are reported above under their own class
                             let oob = mmas && (pm[a * n + b] * (1.0 - rho)).to_bits() == x.to_bits();
                             if !oob {
@@ -703,6 +725,18 @@ impl<P: HProblem> Obs<P> {
             "Linear" if self.case.kind == Kind::Pso => {
                 let (s, e) = (self.case.p("start_weight"), self.case.p("end_weight"));
                 if let (Ok(w), Ok(pr)) = (state.try_get_value::<InertiaWeight<ParticleVelocitiesUpdate<Global>>>(), state.try_get_value::<Progress<ValueOf<Iterations>>>()) {
+                    // the progress is that of the loop's current pass: iterations / n, refreshed by
+                    // the loop condition at the top of this pass
+                    let n_iter = match self.case.term {
+                        Term::Iterations(n) | Term::Either { iters: n, .. } => Some(n),
+                        _ => None,
+                    };
+                    if let (Some(n), Ok(it)) = (n_iter, state.try_get_value::<Iterations>()) {
+                        let cur = it as f64 / n as f64;
+                        if pr.to_bits() != cur.to_bits() && !(pr.is_nan() && cur.is_nan()) {
+                            d.violate("C18", "pso-progress-stale", format!("in pass {it} of {n} the iteration progress reads {pr} instead of {cur}"));
+                        }
+                    }
                     let exp = (e - s) * pr + s;
                     if !rel_close(w, exp, 1e-12) {
                         d.violate("C18", "pso-inertia-weight-interpolation", format!("inertia weight is {w}; linear interpolation {s} -> {e} at progress {pr} gives {exp}"));
@@ -752,7 +786,7 @@ impl<P: HProblem> Obs<P> {
             let pmin = ps.iter().filter_map(|i| i.get_objective().map(|o| o.value())).min_by(|a, b| a.total_cmp(b));
             let gv = g.as_ref().and_then(|i| i.get_objective().map(|o| o.value()));
             if let Some(pmin) = pmin {
-                if gv.map(|g| g.to_bits()) != Some(pmin.to_bits()) {
+                if gv.map(zbits) != Some(zbits(pmin)) {
                     d.violate("C18", "pso-global-best-not-best-personal-best", format!("after {at}: global best is {gv:?}, the best personal best is {pmin}"));
                 }
             }
